@@ -441,10 +441,12 @@ class Poly(meta(metaclass=PolyMeta)):
       return Poly(zero=self.zero)
     if len(self._data) == 1:
       return Poly(OrderedDict((k * other,
+                               v ** other if isinstance(v, Stream) else
                                1 if v == 1 else v ** other) # Avoid casting
                               for k, v in iteritems(self._data)),
                   zero=self.zero)
-    return reduce(operator.mul, [self.copy()] * (other - 1) + [self])
+    return reduce(operator.mul, [self.copy() for unused in xrange(other - 1)]
+                                + [self])
 
   def __truediv__(self, other):
     if isinstance(other, Poly):
